@@ -3,7 +3,7 @@
    tar+gzip, .helmignore matching) are instantiated per case by tables of the answers the
    real libraries gave; a query missing from a table yields a sentinel that cannot match. *)
 From Coq Require Import List String Ascii Bool Arith ZArith.
-From Helm Require Import Values.Tree Chart.Paths Chart.Archive Chart.Files Chart.Save Chart.Load Gen.Limits.
+From Helm Require Import Values.Tree Chart.Paths Chart.Archive Chart.Files Chart.Save Chart.Load Chart.Ignore Gen.Limits.
 Import ListNotations.
 Local Open Scope string_scope.
 
@@ -20,7 +20,8 @@ Record oracle := mkOr {
   o_san : list (nat * nat);
   o_semver : list (string * bool);
   o_rest : list (nat * bool);
-  o_ign : list ((string * bool) * bool);
+  o_match : list (string * string);      (* (pattern, name) pairs filepath.Match accepts *)
+  o_matcherr : list string;              (* patterns filepath.Match rejects as malformed *)
   o_depnames : list (nat * list string) }.
 
 Fixpoint find {K V} (eqb : K -> K -> bool) (k : K) (l : list (K * V)) : option V :=
@@ -81,8 +82,12 @@ Section WithOracle.
     | Some i => match find Nat.eqb i (o_rest o) with Some b => b | None => false end
     | None => false
     end.
-  Definition r_ign (n : string) (isdir : bool) : bool :=
-    match find (pair_eqb String.eqb Bool.eqb) (n, isdir) (o_ign o) with Some b => b | None => false end.
+  Definition r_pmatch (p n : string) : bool := existsb (pair_eqb String.eqb String.eqb (p, n)) (o_match o).
+  Definition r_pmatch_err (p : string) : bool := existsb (String.eqb p) (o_matcherr o).
+  (* the rules LoadDir builds: .helmignore of the tree (if any) plus the default rule *)
+  Definition m_rules (tree : list file) : option (list pat) :=
+    parse_ignore r_pmatch_err
+      (match filter (fun f => String.eqb (f_name f) ".helmignore") tree with f :: _ => Some (f_data f) | [] => None end).
   Definition r_depnames (m : meta) : list string :=
     match mid m with
     | Some i => match find Nat.eqb i (o_depnames o) with Some l => l | None => [missing] end
@@ -98,7 +103,11 @@ Section WithOracle.
   Definition m_load_files := load_files r_merge r_lockdec r_values r_untar r_san r_semver r_rest mt mf fuel.
   Definition m_load_archive := load_archive r_merge r_lockdec r_values r_untar r_san r_semver r_rest mt mf fuel.
   Definition m_load_dir (tree : list file) :=
-    load_dir_walk r_merge r_lockdec r_values r_untar r_san r_semver r_rest mt mf r_ign fuel (walk_sort tree).
+    match m_rules tree with
+    | None => inl LIgnore
+    | Some ps => load_dir_walk r_merge r_lockdec r_values r_untar r_san r_semver r_rest mt mf
+                               (rules_ignore r_pmatch ps) fuel (walk_sort tree)
+    end.
 End WithOracle.
 
 Inductive case :=
@@ -140,7 +149,8 @@ Definition case_ok (c : case) : bool :=
       end
   | CFiles o files loaded => lres_eqb (m_load_files o files) loaded
   | CDir o ignerr pkgver tree loaded packaged =>
-      let res := if ignerr then inl LIgnore else m_load_dir o tree in
+      let res := m_load_dir o tree in
+      Bool.eqb ignerr (match m_rules o tree with None => true | Some _ => false end) &&
       lres_eqb res loaded &&
       match res with
       | inr ch => opt_eqb (list_eqb te_eqb) (m_package o pkgver ch) packaged
